@@ -280,6 +280,10 @@ pub fn gen_base(g: &mut Rng, secrets: &HashMap<String, String>) -> Base {
     v4_sign_header(&mut req, &params, &payload, &extra_refs);
     let auth = String::from_utf8_lossy(req.get_header("authorization").unwrap()).into_owned();
     let signed = parse_auth_v4(&auth).expect("own header parses").signed;
+    // one request in six travels in its HTTP/2 form: no Host header, the authority (with its port) in the target
+    if g.chance(1, 6) && to_http2(&mut req) {
+        features.push("http2-authority");
+    }
     Base { req, params, payload, signed, features }
 }
 
@@ -313,6 +317,8 @@ pub fn aws_sigv4_signature(b: &Base) -> Result<String, String> {
         .build()
         .map_err(|e| e.to_string())?
         .into();
+    let h1 = http1_form(&b.req);
+    let b = &Base { req: h1, params: b.params.clone(), payload: b.payload.clone(), signed: b.signed.clone(), features: b.features.clone() };
     let host = String::from_utf8_lossy(b.req.get_header("host").ok_or("host")?).into_owned();
     let uri = format!("http://{host}{}", b.req.uri);
     let hs: Vec<(String, String)> = b
